@@ -396,7 +396,7 @@ def reseed(ctx, c, k):
 def run(ctx):
     broken, log = ctx.prove("Properties_C05.v", "Properties_C05")
     exe, drv = build(ctx)
-    n = 280 if not ctx.thorough else 3000
+    n = 240 if not ctx.thorough else 3000
     corpus = load_corpus()
     cases = list(corpus)
     cases += [gen_case(ctx.rng) for _ in range(n)]
